@@ -395,6 +395,8 @@ def replay_step(c, rt, module_args, jsonl, extra_args=(), parts=4, label="", wha
     cmds = [[rt] + list(module_args) + [mode, p] + list(extra_args) for p in pieces]
     tb = ts = 0
     for (rc, summ, out), p in zip(run_parallel(cmds, timeout=3000), pieces):
+        if rc == 2 or rc == 124:
+            raise ToolError("adapter reported a tool error / timed out (rc=%s) on %s: %s" % (rc, p, out[-300:]))
         if rc != 0 or summ is None:
             # UB in the code under test can kill the child: find the behaviour that did it
             e2 = dict(os.environ); e2["VERIF_BISECT"] = "1"
@@ -429,6 +431,8 @@ def trace_step(c, rt, module_args, trace_module, trace_cfg, nfiles, events, extr
         paths.append(path)
     ok = 0
     for (rc, summ, out), path in zip(run_parallel(cmds, timeout=3000), paths):
+        if rc == 2 or rc == 124:
+            raise ToolError("trace driver reported a tool error / timed out (rc=%s)" % rc)
         if rc != 0:
             c.violation("trace driver crashed rc=%s while driving the real code" % rc, {"trace": path, "cmd": cmds[0]})
             continue
